@@ -26,6 +26,7 @@ type c06Case struct {
 	Table   bool    `json:"table"`
 	Threads int     `json:"threads"`
 	TLay    Layout  `json:"t_layout"`
+	CLI     bool    `json:"cli,omitempty"`
 }
 
 type c06Target struct {
@@ -353,6 +354,25 @@ func checkC06(c c06Case, o *Obs) error {
 	if nt {
 		o.NonTrivial()
 	}
+	if c.CLI && gofastaBin() != "" {
+		dir, cleanup := caseDir("c06cli")
+		defer cleanup()
+		args := []string{"closest", "--query", writeFile(dir, "q.fa", qt), "--target", writeFile(dir, "t.fa", tt), "-m", c.Measure, "-t", strconv.Itoa(c.Threads)}
+		switch c.Mode {
+		case "n":
+			args = append(args, "-n", strconv.Itoa(c.K))
+		case "d":
+			args = append(args, "-d", strconv.FormatFloat(c.D, 'g', -1, 64))
+		case "nd":
+			args = append(args, "-n", strconv.Itoa(c.K), "-d", strconv.FormatFloat(c.D, 'g', -1, 64))
+		}
+		if c.Table && c.Mode != "plain" {
+			args = append(args, "--table")
+		}
+		if err := cliAgree(o, "closest", out.String(), args...); err != nil {
+			return err
+		}
+	}
 	return nil
 }
 
@@ -468,6 +488,7 @@ func genC06(t *rapid.T) c06Case {
 	}
 	c.D = d
 	c.TLay = genLayout(t, w)
+	c.CLI = rapid.IntRange(0, 19).Draw(t, "cli") == 0
 	return c
 }
 
